@@ -63,6 +63,8 @@ def t_region_loading(ctx):
                    (made == gdepth) if got.unions == [want] else False)
     else:
         ctx.oblige("post", lab + ".is_the_callers_region_on_every_path", got is want)
+    if which == 1:
+        ctx.oblige("frame", "load_globals.the_callers_region_object_is_not_modified", given.mutated is False)
 
 
 class _CopyModel(_RegionModel):
